@@ -479,7 +479,7 @@ FACT_DETAILS = {"file_pp_calls_pure": "file_pp_state_writes", "line_pp_reset_com
                 "file_pp_source_matches_model": "file_pp_source_diffs", "generator_runs_file_pps_once_in_order": "generator_pp_loop_problems",
                 "no_undeclared_ambient_inputs": "ambient_probes", "no_unlisted_shared_containers": "shared_containers",
                 "registered_callables_classified": "unclassified_callables", "registered_callables_as_expected": "unexpected_ambient_callables",
-                "no_unlisted_process_state": "process_state_unlisted", "memo_keys_determine_result": "memo_keys_coarser_than_function"}
+                "no_unlisted_process_state": "process_state_unlisted", "memo_keys_determine_result": "memo_keys_coarser_than_function", "config_files_read_in_given_order": "config_files_loop"}
 
 
 def report_source_facts(ctx, info, names):
